@@ -66,14 +66,14 @@ Fixpoint count_name (n : list N) (ns : list (list N)) : nat :=
 Definition outer_use (en : env) (o : socc) : bool :=
   negb (is_decl (s_role o)) && binding_eqb (s_bind o) (resolve en (s_name o)).
 
-(* `local n_0, ..., n_k = e_0, ..., e_m`: tags of the occurrences inside e_i *)
+(* `local n_0, ..., n_k = e_0, ..., e_m`: tags of the occurrences inside e_i.  Class B3 (a use of an EARLIER name of
+   the statement in e_i: the traversal had added it already) is REPAIRED (fixes/C07-multi-local-order.diff): no
+   occurrence carries CB3 any more; for the position resolver these occurrences are part of class B1 (tag CB1). *)
 Definition tag_local_init (en : env) (ns : list (list N)) (i : nat) (e : exp) (os : list socc) : list socc :=
-  let earlier := firstn i ns in
   let protected (n : list N) :=
       (Nat.eqb (count_name n ns) 1) && beq_bytes (nth i ns []) n
       && (match ref_of_exp e with RNone => false | _ => true end) in
-  tag_if (fun o => outer_use en o && name_in (s_name o) earlier) CB3
-         (tag_if (fun o => outer_use en o && name_in (s_name o) ns && negb (protected (s_name o))) CB1 os).
+  tag_if (fun o => outer_use en o && name_in (s_name o) ns && negb (protected (s_name o))) CB1 os.
 
 Definition index_map {A B} (f : nat -> A -> B) : nat -> list A -> list B :=
   fix go (i : nat) (l : list A) {struct l} : list B :=
